@@ -96,6 +96,9 @@ func buildFixture(base string, cats map[string]catalog, j *job, salt int64) *bui
 	e := &env{w: w, dir: dir, es: &epochState{}}
 	e.open()
 	for _, st := range j.Hist {
+		if j.Unit > 0 && st.Ev == "InhumeCnr" {
+			continue // a container marked for removal refuses the padding objects of the scaled worlds
+		}
 		e.exec(st)
 	}
 	kit.Must(e.sh.Close())
@@ -224,6 +227,9 @@ func buildFixture(base string, cats map[string]catalog, j *job, salt int64) *bui
 			cand = stored()
 		}
 		for c := 1; c <= nc; c++ {
+			if len(cand[c]) < j.NH[c-1]*j.Unit {
+				panic(fmt.Sprintf("container %d: %d carriers of homomorphic entries, world wants %d", c, len(cand[c]), j.NH[c-1]*j.Unit))
+			}
 			homo[c] = cand[c][:j.NH[c-1]*j.Unit]
 		}
 	} else {
@@ -236,6 +242,13 @@ func buildFixture(base string, cats map[string]catalog, j *job, salt int64) *bui
 		}
 	}
 
+	if j.Unit > 0 {
+		for c, as := range countAssocs() {
+			if c >= 1 && len(as) != j.NA[c-1]*j.Unit {
+				panic(fmt.Sprintf("container %d: %d associations, world wants %d", c, len(as), j.NA[c-1]*j.Unit))
+			}
+		}
+	}
 	fx := &fixture{path: path, ver0: j.Ver0, nc: nc, cids: w.cids, assocs: countAssocs(), homo: make([]int, nc+1),
 		refCtr: make([]counters, nc+1), hasBkt: make([]bool, nc+1), drift0: make([]bool, nc+1)}
 	for c := 1; c <= nc; c++ {
